@@ -51,7 +51,13 @@ func (c11) Generate(r *engine.Rand, index int, tier string) *engine.Scenario {
 	case 0: // storage faults
 		sc.Class = "image"
 		spec := engine.CartSpec{Kind: "raw", RawSeed: r.U64(), Type: r.Byte(), RomCode: r.Byte(), RamCode: r.Byte()}
-		switch r.Intn(7) {
+		switch r.Intn(8) {
+		case 7:
+			// a dump with its tail trimmed: a few bytes to a whole page short of what the header declares,
+			// for the controller families that take the image as it is
+			spec.RomCode = uint8(r.Intn(3))
+			spec.Type = engine.Pick(r, []uint8{0x00, 0x00, 0x00, 0x01, 0x08, 0x09, 0x11, 0x19})
+			spec.RawLen = (0x8000 << uint(spec.RomCode)) - engine.Pick(r, []int{1, 2, 4, 16, 0x100, 0x1000, 0x3fff, 0x4000, 0x4001})
 		case 0:
 			spec.RawLen = r.Intn(0x151)
 		case 1:
